@@ -19,16 +19,30 @@ def judge(case):
     S = nxt.shape[0]
     g, eps, p = case["gamma"], case["eps"], case["period"]
     V0 = SC.v0_of(case, S)
-    r = SC.run_case(dict(case, calls=[LIMIT]))
+    ref = B.ref_periodic(nxt, rew, prob, g, eps, p, V0, LIMIT)
+    traj = ref["traj"]
+    # some cases are solved in two calls (the first stops at its limit, well before the reference
+    # stopping iteration): the policy returned by EACH call must be greedy for that call's values
+    pre = case.get("pre") if (case.get("pre") and ref["n"] > case["pre"] + 1 and not ref["border"]) else None
+    r = SC.run_case(dict(case, calls=[pre, LIMIT - pre] if pre else [LIMIT]))
     out = {"key": SC.case_key(case), "fail": None, "outcome": None, "n": 0, "ratio": None, "wraps": 0}
     if r["error"]:
-        out["fail"] = "raised: " + r["error"]
-        return out
+        if pre and case.get("clear", True) is True and "NoneType" in r["error"]:
+            r = SC.run_case(dict(case, calls=[LIMIT]))
+            pre = None
+        if r["error"]:
+            out["fail"] = "raised: " + r["error"]
+            return out
+    if pre:
+        for k_, o_ in ((1, r["obs"][1]), (2, r["obs"][2])):
+            q_ = B.q_values(nxt, rew, prob, g, o_["values"])
+            pol_ = o_["policy"]
+            if pol_ is None or (pol_ < 0).any() or (q_.max(1) - q_[np.arange(S), pol_]).max() > B.tol(np.abs(q_).max(), 1e-9):
+                out["fail"] = "call %d of solve(%d); solve(%d): returned policy is not greedy for the returned values (iteration %d)" % (k_, pre, LIMIT - pre, o_["iteration"])
+                return out
     o = r["obs"][-1]
     n = o["iteration"]
     out["n"] = n
-    ref = B.ref_periodic(nxt, rew, prob, g, eps, p, V0, LIMIT)
-    traj = ref["traj"]
     if n > LIMIT or n < 1:
         out["fail"] = "iteration %d outside 1..%d" % (n, LIMIT)
         return out
@@ -113,7 +127,7 @@ def cases_for(ctx):
                 continue
             for clear in ((True, False) if not q else ((k % 2 == 0),)):
                 cases.append(dict(name=name, tables=m, kind="pvi", gamma=g, eps=eps, period=p, clear=clear,
-                                  init="ramp" if (k % 3 == 0) else "zero", gstar=gst, mbs=1024 if k % 4 else 1))
+                                  init="ramp" if (k % 3 == 0) else "zero", gstar=gst, mbs=1024 if k % 4 else 1, pre=(2 if k % 5 == 0 else None)))
     return cases
 
 
